@@ -87,6 +87,11 @@ def cases(tier, seed):
         k += 1
         for ci in range(k % b['stride'], 24, b['stride']):
             yield ('sift', 'fa', idx, ci, seed)
+    # larger scope: thousands of samples (stopping metrics evaluated on long envelopes) and slow, finely sampled
+    # oscillations (thousands of samples per cycle: curvature at the extrema is tiny in absolute terms)
+    for name in (('noisy', 2500), ('slow', 24000)):
+        for ci in ((9, 12) if name[0] == 'noisy' else (0, 21)):
+            yield ('sift', 'long', name, ci, seed)
     nm = 0
     for name in signals.fb_names(b['fb_sizes']):
         k += 1
@@ -115,6 +120,13 @@ def decode_case(c):
 def signal_of(case):
     if case[1] == 'fa':
         return signals.fa_signal(case[2], 4, case[4])
+    if case[1] == 'long':
+        kind, n = case[2]
+        t = np.arange(n)
+        if kind == 'noisy':
+            tab = signals.noise_table(case[4])
+            return np.cos(2 * np.pi * t / 41.0) + 0.6 * np.cos(2 * np.pi * t / 9.3 + 1.0) + 0.3 * np.tile(tab[0], n // 256 + 1)[:n]
+        return np.cos(2 * np.pi * t / 6000.0 + 0.4) + 0.25 * np.cos(2 * np.pi * t / 1370.0)
     return signals.fb_signal(case[2], case[4])
 
 
@@ -146,7 +158,7 @@ def check_sift(case):
     (rule, par), step, interp, pad = SUB24[case[3]]
     o = opts_of(rule, par, step, interp, pad)
     tag = 'x=%s stop=%s%r step=%.3g interp=%s pad=%d' % (
-        x.tolist() if N <= 12 else 'F_B%r' % (case[2],), rule, par, step, interp, pad)
+        x.tolist() if N <= 12 else '%s%r' % (case[1], case[2]), rule, par, step, interp, pad)
     viols = []
     trans = 0
     excluded = 0
@@ -171,7 +183,7 @@ def check_sift(case):
             base_exc = False
             if fname == 'sift':
                 ncols = base.shape[1]
-        for c in DYADIC:
+        for c in (DYADIC if N <= 1000 else (2.0 ** -8, -(2.0 ** 8), -1.0)):
             got, _, _ = run_guarded(lambda: f(c * x, c))
             trans += 1
             if base_exc or isinstance(got, Exception):
@@ -186,7 +198,7 @@ def check_sift(case):
             if got.shape != want.shape or not np.array_equal(got, want):
                 why = 'columns %r vs %r' % (got.shape, want.shape) if got.shape != want.shape else 'max diff %.3g' % np.max(np.abs(got - want))
                 viols.append(('%s:dyadic:%s' % (fname, 'neg' if c < 0 else 'pos'), '%s: f(%r*x) != %r*f(x) bit-for-bit (%s)' % (tag, c, c, why)))
-        for c in OTHER + ['reverse']:
+        for c in (OTHER + ['reverse'] if N <= 1000 else [3.0, 'reverse']):
             if c == 'reverse':
                 got, gs, gt = run_guarded(lambda: f(x[::-1].copy()))
             else:
